@@ -119,6 +119,18 @@ pub fn search(r: &mut Report, tier: &str, _seed: u64) {
     {
         let big = u64::MAX - 10;
         for steps in [0u64, 1, 7, big] {
+            // an actor this counter has no entry for (zero steps: an empty batch counts nothing)
+            let mut f = GCounter::new();
+            let op = f.inc(1u8); f.apply(op);
+            let op = f.inc_many(5u8, steps);
+            r.case("gcounter.inc_many_dot_fresh_actor", op.counter == steps, &|| format!("inc(1); inc_many(5, {})", steps), &|| format!("dot {:?}", op));
+            f.apply(op);
+            r.case("gcounter.read_fresh_actor", f.read() == BigUint::from(1u8) + BigUint::from(steps), &|| format!("inc(1); inc_many(5, {})", steps), &|| format!("read {}", f.read()));
+            let mut pf = PNCounter::new();
+            let op = pf.inc_many(5u8, 9); pf.apply(op);
+            let op = pf.dec_many(5u8, steps.min(1u64 << 40)); pf.apply(op);
+            let op = pf.inc_many(6u8, steps.min(1u64 << 40)); pf.apply(op);
+            r.case("pncounter.read_fresh_side", pf.read() == BigInt::from(9), &|| format!("inc_many(5,9); dec_many(5,{0}); inc_many(6,{0})", steps.min(1u64 << 40)), &|| format!("read {}", pf.read()));
             let mut g = GCounter::new();
             let op = g.inc(0u8); g.apply(op);
             let op = g.inc_many(0u8, steps);
